@@ -147,6 +147,18 @@ theorem schedule_indep_dict {ρ} (done₁ done₂ : List (Nat × ρ)) (hp : done
 
 example : mergeDictByKey [(2, "m2"), (1, "m1")] [1, 2, 3] = [some "m1", some "m2", none] := by decide
 
+/-- the completion orders the harness forces on the real stages (enumerated by
+`completionOrders nWorkers nProc`: what the start / poll loop can produce with
+`nProc` slots) are permutations of the workers, and gathering the workers'
+records in such an order is a permutation of the dispatch-order list - so
+every forced schedule is an instance of the theorems above -/
+theorem forced_orders_are_instances {ρ} (results : List ρ) (nProc : Nat) :
+    ∀ o ∈ completionOrders results.length nProc, (gather results o).Perm results :=
+  fun o ho => gather_perm results o (completionOrders_perm _ _ o ho)
+
+example : completionOrders 3 2 = [[0, 1, 2], [1, 0, 2], [1, 2, 0], [0, 2, 1]] := by decide
+example : gather ["a", "b", "c"] [1, 2, 0] = ["b", "c", "a"] := by decide
+
 /-! ## seeds -/
 
 /-- "one child generator per chunk, seeded from the parent generator in
